@@ -21,7 +21,7 @@ Contents
 5. Genuine defects found on the pinned tree, their repair, the one known finding
 6. Limits, honest non-coverage, tooling limits, known false-alarm surface
 7. Interface (commands, exit codes, evidence, known findings, thorough tier)
-8. Validation of the machinery: eleven rounds of seeded mutations, controls, twelve
+8. Validation of the machinery: twelve rounds of seeded mutations, controls, twelve
    rounds of behaviour-preserving refactorings; which check catches which change;
    what was missed; false alarms met and how they were removed
 
@@ -111,7 +111,7 @@ on `stream.Merge`, i.e. on the same defect the ownership rule found (F2).
 /verif/evidence/Cnn.json   rewritten by every run
 /verif/reports/            violation reports named in "VIOLATION … replay=<path>" (git-ignored)
 /verif/controls/Cnn/*.diff 121 one-line control edits (tools/gen_controls.py)
-/verif/seeded/*/           620 sub-agent mutations with demonstration tests and meta.json
+/verif/seeded/*/           659 sub-agent mutations with demonstration tests and meta.json
 /verif/refactorings/*/     behaviour-preserving refactorings used as false-alarm tests
 /verif/tools/              baseline.sh, seed_import.sh, seed_confirm.sh, seed_run.sh, ref_run.sh, ref_all.sh, regress.sh,
                            gen_manifest.py, gen_matrix.py, gen_design.py, validate.py
@@ -427,7 +427,7 @@ the clean tree, patch applies and builds, demo fails with the patch, suite
 passes twice with the patch) before it was kept under `/verif/seeded/<id>/`
 (`patch.diff`, `zz_seed_demo_test.go`, `meta.json`), and each was then applied
 to `/repo` itself, checked, and undone (`tools/seed_confirm.sh`, recorded in
-`meta.json: check_against_repo`). 620 kept (40 in round 1, 60 in each of rounds 2-10, 40 in round 11).
+`meta.json: check_against_repo`). 659 kept (40 in round 1, 60 in each of rounds 2-10, 40 in round 11, 39 in round 12).
 
 * Round 1 (40): all caught by the rules that existed when each seed arrived,
   several of which (`C03.split-halves` rewrite direction, `C19.tail-cleared`
@@ -707,8 +707,39 @@ to `/repo` itself, checked, and undone (`tools/seed_confirm.sh`, recorded in
   ok; …` in `Reduce`, the pre-fill inside `newTokens(n)` through `t.release()`); both
   shapes are followed now.
 
+* Round 12 (39: two per property - one for C14 -, after the round-12 refactoring hardening; prompts
+  listed all thirty-one earlier mutations per property): **30 caught at once,
+  9 missed**. What arrives now is mostly concurrency (a value receiver that
+  copies a node, a generator shared between goroutines, a pull handed to a goroutine
+  nobody waits for) and "fast paths" in front of correct code. New rules, all
+  necessary conditions read off the shape of the code: `C01.no-node-copy` (nodes are
+  used through their pointer only - a value-receiver `leaf()` copies every value slot
+  next to a concurrent overwriting `Put`), `C07.reducers-drain` (every successful
+  return of `stream.Collect` / `Reduce` / `Last` follows the source's `End` or a
+  hand-over to a reducer that drains it; a helper that is handed the source is
+  summarised by the same typestate - `drain(ctx, s)`, `item, ok, err := nextItem(ctx, s)`,
+  `each(ctx, s, f)` - so `Last(ctx, s, 0)` returning at once is reported and the
+  refactored reducers are not), `C07.buffer-index-guarded` (a constant index into a
+  slice kept in a wrapper's field sits under a still-valid test of its length:
+  `FlattenSlices` refilling once instead of until something came), `C08.ctx-failure-costs-nothing`
+  (where a `Next` of package stream returns `ctx.Err()` itself, it has not written its
+  own fields on that path: `peekable.Next` testing the context after it has thrown the
+  buffered item away), `C09.own-param` extended (the goroutine that owns an input does
+  not let a goroutine of its own, which no WaitGroup covers, pull from it: `Merge`'s
+  worker selecting on a detached `Next` and `ctx.Done()`), `C18.published-immutable`
+  extended (no store through the cell obtained from `Load` / `Swap`), `C19.std-namesake-forwarders`
+  (a helper that hands its parameters unchanged to its standard-library namesake does
+  so in its entry block and returns that result on every path: `Grow`'s `n <= cap(s)`
+  shortcut), `C19.no-shared-generator` (xrand keeps no package-level `*rand.Rand` used
+  outside a held mutex), `C20.tick-chan-open` (nothing in xtime closes a `chan time.Time`:
+  `close(t.c)` in `Stop` turns into zero ticks after `Stop` and a send on a closed
+  channel after `Reset`). The new rules alarmed on 5 kept refactorings when first run
+  (reducers that drain through `drain` / `nextItem` / `advance` / `each` helpers or a
+  `for ; err == nil; item, err = s.Next(ctx)` loop; a loop-header length test judged
+  stale because of the store at the loop's end); all five shapes are followed now.
+
 A rule written after seeing a seed says so above; that is the honest reading of
-"caught": all 620 seeds are reported today; in rounds 2-11, 383 of 580 were
+"caught": all 659 seeds are reported today; in rounds 2-12, 413 of 619 were
 reported by the rules that existed when the seed arrived.
 
 ### 8.2 Controls
